@@ -177,6 +177,12 @@ def _gen_once(rng, kind, tier):
         dr = geom.spacing(spec)[0]
         R = float(rng.uniform(0.525 * dr, spec["radius"]))
         dim = geom.space_dim(spec)
+        if rng.random() < 0.25:
+            # annular / shell-shaped grid (inner radius > 0) around a centred droplet that is larger than the hole
+            u = spec.get("unit", 1.0)
+            r_in = float(np.round(rng.uniform(0.5, 6.0) * dr / u, 3)) * u
+            spec["radius"] = [r_in, r_in + dr * spec["shape"][0]]
+            R = float(rng.uniform(r_in + 0.525 * dr, spec["radius"][1]))
         return {"grid": spec, "droplets": [[0.0] * dim + [R]]}
 
     if kind == "cyl":
@@ -339,10 +345,19 @@ def run(case, rec):
         j = matches[0]
         used.add(j)
         d = found[j]
-        rec.check(abs(d.volume / t["V"] - 1) <= VOL_RTOL, "volume",
-                  f"located volume {d.volume!r} != covered cell volume {t['V']!r} "
-                  f"(original c={t['c'].tolist()} R={t['R']})")
-        rec.note_max("max_rel_volume_error", abs(d.volume / t["V"] - 1))
+        if fam in ("polar", "sph") and isinstance(spec["radius"], (list, tuple)):
+            # a grid with a hole has no cells where the droplet's core is: the droplet's volume is that of the full disc
+            # or ball up to the outer edge of the covered cells (the radius clause above), not the covered cell volume
+            rec.count("annular_grids")
+            edge = geom.radial_range(spec)[0] + h[0] * int(np.count_nonzero(t["covered"]))
+            rec.check(abs(d.radius - edge) <= 1e-9 * edge, "volume",
+                      f"located radius {d.radius!r} is not the outer edge {edge!r} of the covered cells (inner radius "
+                      f"{geom.radial_range(spec)[0]}, original R={t['R']})")
+        else:
+            rec.check(abs(d.volume / t["V"] - 1) <= VOL_RTOL, "volume",
+                      f"located volume {d.volume!r} != covered cell volume {t['V']!r} "
+                      f"(original c={t['c'].tolist()} R={t['R']})")
+            rec.note_max("max_rel_volume_error", abs(d.volume / t["V"] - 1))
         rec.check(type(d).__name__ == "SphericalDroplet" and d.dim == dim, "class",
                   f"unrefined result is {type(d).__name__} dim {d.dim}")
     # positions inside the bounds along periodic axes
